@@ -618,10 +618,28 @@ _NUM = r"[-+]?(?:\d+\.?\d*(?:[eE][-+]?\d+)?|inf|nan)"
 
 
 class C20Monitor(Monitor):
+    MID = ("consult", "round_end")
+
     def on(self, kind, tree, info):
+        x, w = self.x, self.x.w
+        if kind in self.MID and x.desc.get("look_mid_step"):
+            # looking at the tree in the middle of a metaepoch must not change anything either
+            dg = tree_digest(tree)
+            nlog = len(w.log)
+            try:
+                a, b = tree.best_individual, tree.best_individual
+                s_a, s_b = tree.summary(), tree.summary()
+            except Exception as e:
+                x.note(f"mid-step accessor raised {type(e).__name__}")
+                return
+            if a is not b or s_a != s_b:
+                x.violate("C20/not-idempotent:mid-step", "best_individual / summary() give different answers when called twice in the middle of a metaepoch")
+            if tree_digest(tree) != dg or len(w.log) != nlog:
+                x.violate("C20/accessor-changed-tree", "the tree changed while only reporting accessors were called (mid-metaepoch)")
+            x.flag("looked at the tree mid-step")
+            return
         if kind != "boundary":
             return
-        x, w = self.x, self.x.w
         dg = tree_digest(tree)
         nlog = len(w.log)
         st = np.random.get_state()[1].tobytes()
@@ -672,9 +690,21 @@ class C20Monitor(Monitor):
         m = re.search(r"^Number of demes: (\d+)", head, re.M)
         if not m or int(m.group(1)) != len(tree.all_demes):
             x.violate("C20/summary-total-demes", f"summary says {m.group(1) if m else None} demes, tree has {len(tree.all_demes)}")
+        # the true best: brute force over every history (not the accessor the report itself uses)
+        btr = better(x.w.maximize)
+        true_best = None
+        for _, d in tree.all_demes:
+            for ind in d.all_individuals:
+                if true_best is None or btr(ind.fitness, true_best):
+                    true_best = ind.fitness
         m = re.search(rf"^Best fitness: ({_NUM})", head, re.M)
-        if not m or not same_formatted(m.group(1), bi.fitness):
-            x.violate("C20/summary-best-fitness", f"summary says {m.group(1) if m else None}, best fitness is {bi.fitness}")
+        if not m or not same_formatted(m.group(1), true_best):
+            x.violate("C20/summary-best-fitness", f"summary says {m.group(1) if m else None}, the best fitness in the tree is {true_best}")
+        if bi.fitness != true_best and not (bi.fitness != bi.fitness and true_best != true_best):
+            x.violate("C20/best-individual-stale", f"tree.best_individual has fitness {bi.fitness}, the best fitness in the tree is {true_best}")
+        class _B:  # the marker is judged against the true best as well
+            fitness = true_best
+        bi = _B
         body = s1
         if t1 and t1 in s1:
             body = s1[: s1.index(t1)]
